@@ -253,6 +253,17 @@ func c19collectorBody(depth int) func() {
 		sched.OnReset(func() { nowInMinute = oldNow })
 		col := NewCollector(capn)
 		ctrs := []*Counter{col.AllocCounter("n0"), col.AllocCounter("n1")}
+		// key names: short; 300 bytes differing only in the last byte; binary with NUL / 0xff bytes
+		shape := sched.Choose(sched.ClsInput, 3, "key-name-shape")
+		keyName := func(i int) string {
+			switch shape {
+			case 1:
+				return strings.Repeat("k", 299) + fmt.Sprint(i)
+			case 2:
+				return "\x00\xff{" + fmt.Sprint(i) + "}\r\n"
+			}
+			return fmt.Sprintf("key%d", i)
+		}
 		accessed := map[string]bool{}
 		var hist []string
 		for step := 0; step < depth; step++ {
@@ -262,12 +273,12 @@ func c19collectorBody(depth int) func() {
 				// single accesses and bursts (a burst lets one key get several visits per period)
 				type acc struct{ ctr, key, n int }
 				a := []acc{{0, 0, 1}, {0, 1, 1}, {0, 2, 1}, {1, 0, 1}, {0, 0, 3}, {1, 1, 2}}[op]
-				k := fmt.Sprintf("key%d", a.key)
+				k := keyName(a.key)
 				for j := 0; j < a.n; j++ {
 					ctrs[a.ctr].Incr(k)
 				}
 				accessed[k] = true
-				hist = append(hist, fmt.Sprintf("Incr(n%d,%s)x%d", a.ctr, k, a.n))
+				hist = append(hist, fmt.Sprintf("Incr(n%d,key%d[name shape %d])x%d", a.ctr, a.key, shape, a.n))
 			case op == 6:
 				col.collect()
 				hist = append(hist, "collect")
@@ -285,11 +296,11 @@ func c19collectorBody(depth int) func() {
 			names := map[string]bool{}
 			for i, k := range hk {
 				if names[k.Name] {
-					sched.Fail("report-lists-key-twice", fmt.Sprintf("%v: %s", hist, k.Name))
+					sched.Fail("report-lists-key-twice", fmt.Sprintf("%v: %.40q", hist, k.Name))
 				}
 				names[k.Name] = true
 				if !accessed[k.Name] {
-					sched.Fail("report-lists-key-never-accessed", fmt.Sprintf("%v: %s", hist, k.Name))
+					sched.Fail("report-lists-key-never-accessed", fmt.Sprintf("%v: %.40q (%d bytes)", hist, k.Name, len(k.Name)))
 				}
 				if i > 0 && hk[i-1].Counter.Value() < k.Counter.Value() {
 					last := hist[len(hist)-1]
@@ -312,7 +323,11 @@ func c19collectorBody(depth int) func() {
 func heats(hk []HotKey) string {
 	var s []string
 	for _, k := range hk {
-		s = append(s, fmt.Sprintf("%s=%d", k.Name, k.Counter.Value()))
+		n := k.Name
+		if len(n) > 8 {
+			n = fmt.Sprintf("(%d bytes)..%q", len(n), n[len(n)-4:])
+		}
+		s = append(s, fmt.Sprintf("%s=%d", n, k.Counter.Value()))
 	}
 	return strings.Join(s, " ")
 }
